@@ -339,3 +339,83 @@ def describe(g: dict | None) -> str:
     if "imm" in g:
         return g["imm"][:60]
     return f"{g['kind']} with {len(g['cells'])} cells {group_value(g)}"
+
+
+# ------------------------------------------------------------------------------------ classify vs the source's branch order
+# (added with the C01 source translation; nothing above is changed.)  `classify` hard-codes the branch order of
+# copy_attributes; `harness/py2lean_clone.py::branch_classes` reads that order from the source text.  The two are
+# compared on a zoo of values that includes members of two classes at once (a callable list, a callable tensor, …),
+# which is where the ORDER of the tests decides.
+_BRANCH_TOKEN = {"callable": "cal", "algorithm": "cal", "tensor": "ten", "ndarray": "nda", "list": "list",
+                 "registry": "reg"}
+
+
+def _in_class(attr, cls: str) -> bool:
+    from agilerl.algorithms.core.registry import MutationRegistry
+    from agilerl.algorithms.core.base import EvolvableAlgorithm
+    if cls == "callable":
+        return callable(attr)
+    return isinstance(attr, {"algorithm": EvolvableAlgorithm, "tensor": torch.Tensor, "ndarray": np.ndarray,
+                             "list": list, "registry": MutationRegistry}[cls])
+
+
+def classify_by_branches(attr, ctor: bool, branches) -> str:
+    """kind token obtained by following `branches` — the class tests on the parent's value in the if-chain of
+    copy_attributes, in SOURCE order, as read by py2lean_clone.branch_classes — instead of classify's own order"""
+    c = ":c" if ctor else ""
+    if is_immutable(attr):
+        return "imm"
+    for tests in branches:
+        for cls in tests:
+            if _in_class(attr, cls):
+                tok = _BRANCH_TOKEN[cls]
+                return tok if tok in ("list", "reg") else tok + c
+    return "oth" + c
+
+
+def classify_zoo() -> list:
+    """(label, value): one value per class and values of two classes at once"""
+    import functools
+    from agilerl.algorithms.core.registry import MutationRegistry
+
+    class CallableList(list):
+        def __call__(self):  # pragma: no cover
+            return None
+
+    class CallableTensor(torch.Tensor):
+        def __call__(self):  # pragma: no cover
+            return None
+
+    class CallableArray(np.ndarray):
+        def __call__(self):  # pragma: no cover
+            return None
+
+    class CallableRegistry(MutationRegistry):
+        def __call__(self):  # pragma: no cover
+            return None
+
+    class Plain:
+        pass
+
+    zoo = [("lambda", lambda: 0), ("partial", functools.partial(int, 1)), ("loss module", torch.nn.MSELoss()),
+           ("tensor", torch.zeros(2)), ("ndarray", np.zeros(2)), ("list", [1.0]), ("empty list", []),
+           ("dict", {"a": 1}), ("plain object", Plain()), ("int", 3), ("str", "x"), ("tuple", (1, 2)), ("none", None),
+           ("callable list", CallableList([1])), ("callable tensor", torch.zeros(2).as_subclass(CallableTensor)),
+           ("callable ndarray", np.zeros(2).view(CallableArray))]
+    for label, mk in (("registry", MutationRegistry), ("callable registry", CallableRegistry)):
+        try:
+            zoo.append((label, mk()))
+        except Exception:  # pragma: no cover  (constructor signature changed: the value is simply not in the zoo)
+            pass
+    return zoo
+
+
+def classify_consistency(branches) -> list[str]:
+    """differences between `classify` (hard-coded order) and the order read from the source; [] if consistent"""
+    bad = []
+    for label, v in classify_zoo():
+        for ctor in (False, True):
+            a, b = classify(v, ctor), classify_by_branches(v, ctor, branches)
+            if a != b:
+                bad.append(f"{label} (ctor arg: {ctor}): walker.classify says {a}, the source's branch order says {b}")
+    return bad
